@@ -596,6 +596,7 @@ pub fn run(tier: &str) -> i32 {
         json!({"p": [[1], [1], [[1]]], "q": [[1], [[1]]]}),
     ]);
     let docs: Vec<Doc3> = panel.iter().map(Doc3::new).collect();
+    let depths: Vec<usize> = panel.iter().map(crate::gen::docs::depth).collect();
     // 1. sentence set x panel
     let sents = sentences::sentences(th);
     let a = sents
@@ -603,7 +604,11 @@ pub fn run(tier: &str) -> i32 {
         .map(|q| {
             let mut acc = Acc::new();
             let s = render::query(q);
-            for d in &docs {
+            for (d, depth) in docs.iter().zip(depths.iter()) {
+                if crate::gen::docs::too_big(&s, *depth) {
+                    acc.bump("skipped_multi_descendant_on_deep_document", 1);
+                    continue;
+                }
                 lockstep(&mut acc, &s, d, "sentences");
             }
             acc
